@@ -203,3 +203,18 @@ add("C15",
     "contracts (representation invariant + atomic refusal) on the real mutators discharged by a VC generator over the Python AST + z3 (unbounded); frame / write-set "
     "analysis (unbounded); exhaustive bounded histories on the real code")
 ENGINE_V += ["C15", "C01"]
+
+
+def extend(pid, extra):
+    cat, text, ref, note, tech = CLAIMED[pid]
+    CLAIMED[pid] = (cat, text + " " + extra, ref, note, tech)
+
+
+SHAPE_V = ("Engine V additionally proves at shape level, for ALL curves and arguments (knot vector seen through npts / degree, callee matrices by their shape "
+           "contracts, A11): %s - the expected npts / degree, the representation invariant, every refusal atomic, and each caller meeting its callee's precondition.")
+extend("C04", SHAPE_V % "Curve.knot_insert and BaseCurve.apply")
+extend("C05", SHAPE_V % "Curve.knot_remove and BaseCurve.update")
+extend("C06", SHAPE_V % "Curve.degree_increase, degree_decrease, the degree setter and BaseCurve.apply")
+extend("C01", "Engine V proves Curve.eval's dispatch for ALL inputs: a scalar argument yields exactly the value at that parameter, a sequence of ANY length yields one "
+              "value per node in order (callee __eval by contract), plus the span search, valid() and Horner evaluation.")
+ENGINE_V += ["C05"]
